@@ -1100,6 +1100,29 @@ func (e *Engine) model(st *state, fr *frame, in ssa.CallInstruction, fn *ssa.Fun
 				src = inner
 			}
 		}
+		// a made byte slice nothing was stored into or read into: that many zero bytes (the NUL arm of
+		// `pad := make([]byte, n); if b != 0 { fill }; buf.Write(pad)`)
+		if ms := stripCT(src); ms != nil && ms.Op == "makeslice" && len(ms.Args) >= 1 && ms.Type != nil {
+			if sl, isSl := ms.Type.Underlying().(*types.Slice); isSl {
+				if eb, isB := sl.Elem().Underlying().(*types.Basic); isB && eb.Kind() == types.Uint8 {
+					touched := false
+					if _, has := st.content[ms.Key()]; has {
+						touched = true
+					}
+					for _, me := range st.mem {
+						if me.Addr != nil {
+							if r := addrRoot(me.Addr); r != nil && r.Key() == ms.Key() {
+								touched = true
+							}
+						}
+					}
+					if !touched {
+						zero := mkConst(constant.MakeInt64(0), types.Typ[types.Uint8])
+						src = &Val{Op: "call", Name: "bytes.Repeat", Args: []*Val{{Op: "arraylit", Args: []*Val{zero}}, ms.Args[0]}, Type: ms.Type}
+					}
+				}
+			}
+		}
 		// one byte appended count times onto an empty slice: count copies of that byte
 		if col := stripCT(src); col != nil && col.Op == "collect" && len(col.Args) == 3 {
 			init, el := stripCT(col.Args[0]), stripCT(col.Args[1])
